@@ -103,6 +103,9 @@ class Repeater:
         """
 
         for key, value in patch.items():
+            if key == "id":
+                # id is read-only, it identifies the repeater (and keys the storage) for its whole lifetime
+                continue
             if hasattr(self, key):
                 setattr(self, key, value)
             elif value is not None:
